@@ -345,6 +345,10 @@ func (g *gen) block(stmts []ast.Stmt, env map[string]string, depth int, cond boo
 			for _, cc := range s.Body.List {
 				g.block(cc.(*ast.CaseClause).Body, env, depth, true)
 			}
+		case *ast.RangeStmt:
+			// per element of the ranged collection; the loop variables stay symbolic
+			g.events = append(g.events, "foreach:"+g.render(s.X, env))
+			g.block(s.Body.List, env, depth, cond)
 		}
 	}
 }
@@ -396,7 +400,7 @@ func main() {
 	collectConsts(types, "types.", g.consts)
 	collectConsts(types, "tftypes.", g.consts)
 
-	handlers := []string{"CreateDenom", "ChangeAdmin", "Mint", "Burn", "SetDenomMetadata", "BurnNative", "SudoSetDenomMetadata"}
+	handlers := []string{"CreateDenom", "ChangeAdmin", "Mint", "Burn", "SetDenomMetadata", "BurnNative", "SudoSetDenomMetadata", "InitGenesis"}
 	fmt.Println("From Coq Require Import String List. Import ListNotations. Open Scope string_scope.")
 	fmt.Println("(* per Msg handler: ordered events with locals inlined and same-package calls followed *)")
 	fmt.Println("Definition handler_events : list (string * list string) := [")
